@@ -294,7 +294,7 @@ def _harmonics(deg, order, tier):
         grad = []
         for var in (X, Y, Z):
             g = sp.diff(U, var) + sp.diff(U, Rr) * (var / Rr)  # chain rule: dr/dvar = var/r
-            grad.append(sp.simplify(g))
+            grad.append(g)
         env = {X: x, Y: y, Z: z, Rr: rn, MU: mu, RE: R}
         for (n, m), (cs, ss) in csyms.items():
             env[cs], env[ss] = C[n, m], S[n, m]
